@@ -17,6 +17,7 @@ from modbuild import build_modules
 from modgen import Gen, model_str, val_str
 import c08_util as U
 import c08_wide as W
+import c08_alpha as A
 
 MODDRV_EXTRA = os.path.join(HARNESS, "moddrv_c08.inc")
 BUILTIN_NAMES = ["INTEGER", "OCTET STRING", "BOOLEAN", "NULL", "SEQUENCE", "SEQUENCE OF", "SET OF", "CHOICE", "SET", "REAL",
@@ -32,6 +33,8 @@ FLAGSETS_QUICK = [
     ("bare", ("-fcompound-names", "-no-gen-PER", "-no-gen-OER"), False, "lite", 3),
     ("widebare", ("-fwide-types", "-no-gen-PER", "-no-gen-OER"), True, "lite", 3),
 ]
+# the flag sets module MA0 (permitted alphabets) is compiled under: with PER (code2value emitted) and without
+ALPHA_FLAGSETS = ("cn", "bare", "noper")
 FLAGSETS_THOROUGH = [
     ("cn", ("-fcompound-names",), False, "all", 1),
     ("wide", ("-fcompound-names", "-fwide-types"), True, "main", 1),
@@ -334,7 +337,7 @@ def model_layer(run, rng, tier, model, m, cases, flag, clamp_need):
             kind = c["mres"].split()[1]
             kind_ok = {"constraint": "constraint failed", "toolarge": "value too large", "absent": "absent", "noalt": "no CHOICE element"}.get(kind, "") in full
         spec_ok = c["spec"] == "true"
-        viol = U.violated(U.base_of(c["t"], env), c["v"], env, slot=(c["t"]["k"] == "ref"))
+        viol = U.violated(U.base_of(c["t"], env), c["v"], env, slot=(c["t"]["k"] == "ref" or bool(c["t"].get("via"))))
         if (len(viol) == 0) != spec_ok:
             run.violation("oracle:self", dict(replay, what="the Python reading of the Spec and the Coq Spec disagree (harness defect)", python=str(viol)[:400], coq=c["spec"]), no_input=True)
             continue
@@ -467,6 +470,7 @@ def oracle_layer(run, xm, cases, name, opts, clamp_need):
         run.violation("oracle:termination", {"what": "driver run did not finish within 600 s", "module": xm["text"][:3000]})
         return
     nrun = 0
+    shown = 0
     for i, c in enumerate(cases):
         o = out[2 * i:2 * i + 2]
         line = lines[2 * i + 1]
@@ -492,12 +496,148 @@ def oracle_layer(run, xm, cases, name, opts, clamp_need):
             elif c.get("known_reject") and ret == "-1":
                 run.known_finding(c["known_reject"], line)
             else:
-                run.violation("oracle:check_exact(%s)" % ("strings" if name == "C08-strings" else "wide"),
-                              dict(replay, what="asn_check_constraints returned %s, the constraints say %s" % (ret, want), command_line=line, c=o[1][:300], message=full))
+                shown += 1
+                if shown <= 6:           # vlib writes the first 20 violations of a run: leave room for the other layers
+                    run.violation("oracle:check_exact(%s)" % ("strings" if name == "C08-strings" else "wide"),
+                                  dict(replay, what="asn_check_constraints returned %s, the constraints say %s" % (ret, want), command_line=line, c=o[1][:300], message=full))
+                else:
+                    run.count(name + "_further_mismatches_not_listed")
         check_messages(run, line, parsed, clamp_need, names, replay)
     run.count(name + "_cases", nrun)
     if len(cases) > 3:
         run.sample({"oracle_case": cases[3]["what"], "der": cases[3]["der"][:80], "violated": cases[3]["bad"]})
+
+
+# ---------------------------------------------------------------- permitted alphabets (coq/Rt/Alphabet.v, lib/c08_alpha.py)
+def alphabet_layer(run, model, am, sites, where, acases, tag, opts, clamp_need, share=1):
+    """module MA0 under one flag set:
+    (a) the emitted table / code2value / loop text, parsed, against the extracted model (`c08atab`) and, independently,
+        against the alphabet computed by lib/c08_alpha.py (cell != 0 <=> member, cell = rank, whole rows, code2value);
+    (b) asn_check_constraints on the values against the model (`c08achk` and the SIZE model) and against the Spec;
+    (c) the message path, as everywhere."""
+    if not am.get("exe"):
+        run.violation("build:module", {"what": "module %s was rejected or its code does not compile (asn1c %s)" % (am["name"], " ".join(opts)), "module": am["text"][:6000],
+                                       "asn1c_out": am.get("asn1c_out", "")[-1500:], "build_log": am.get("build_log", "")[-1500:]})
+        return
+    per = "-no-gen-PER" not in opts
+    sl = [sites[k] for k in sorted(sites)]
+    ml = ["c08atab %s %d %s" % (s.kind, 1 if s.got_size else 0, A.alpha_s(s.canon)) for s in sl] + ["c08awf %s" % A.alpha_s(s.canon) for s in sl]
+    rc, mo, me = run_lines(model, ml, timeout=600)
+    if rc != 0 or len(mo) != len(ml):
+        raise RuntimeError("model driver failed on c08atab: %s %s" % (rc, me))
+    nbad = {"text": 0, "table": 0}
+    for i, s in enumerate(sl):
+        tn, fn = where[s.id]
+        replay = {"asn1c_options": " ".join(opts), "site": s.id, "type_text": s.text, "shape": s.why, "alphabet": A.alpha_s(s.canon),
+                  "generated_file": tn + ".c", "function": fn}
+        if mo[len(sl) + i] != "true" or mo[i].startswith("EXN"):
+            run.violation("harness:alphabet", dict(replay, what="the generator handed a non-canonical alphabet to the model", model=[mo[i][:200], mo[len(sl) + i]]), no_input=True)
+            continue
+        e = A.parse_emitted(os.path.join(am["dir"], tn + ".c"), fn)
+        want = A.model_line(mo[i], per, s.km)
+        run.count("alphabet_sites_" + want.split()[0].lower())
+        run.count("alphabet_top_mod16_%d" % (s.canon[-1][1] % 16) if want.startswith("TABLE") else "alphabet_range_sites")
+        if e["mode"] == "MISSING":
+            run.violation("oracle:alphabet_text", dict(replay, what="the generated checker of this type was not found / not understood: " + e.get("why", "")), no_input=True)
+            continue
+        got = A.emitted_line(e, per)
+        probs = A.table_oracle(s, e, per) if e["mode"] == "TABLE" else []
+        if e.get("unit", {"u": "1"}.get(s.kind, s.kind)) != {"u": "1"}.get(s.kind, s.kind) and e["mode"] in ("TABLE", "RANGE"):
+            probs.append("the loop reads %s-octet units, the type has %s" % (e.get("unit"), s.kind))
+        if got != want:
+            nbad["text"] += 1
+            if nbad["text"] <= 4:
+                run.violation("correspondence:Rt.Alphabet.table_of_alphabet", dict(replay, what="the emitted permitted-alphabet code differs from the model's" + (" (and the table contradicts the alphabet: %s)" % probs[0] if probs else ""),
+                                                                                   c=got[:1500], model=want[:1500]), no_input=not probs)
+        if probs:
+            nbad["table"] += 1
+            if nbad["table"] <= 4:
+                run.violation("oracle:alphabet_table", dict(replay, what="; ".join(probs)[:900], c=got[:1500]))
+        run.case("%s table %s %s" % (tag, s.id, A.alpha_s(s.canon)))
+    tick("alphabet %s: emitted text of %d sites compared" % (tag, len(sl)))
+    if share > 1:          # a second flag set: the text comparison above is complete, the values are thinned out
+        acases = [c for i, c in enumerate(acases) if c["label"] in ("highest", "lowest+highest") or (i + run.seed) % share == 0]
+    # (b) the values
+    keys, ql = [], []
+    for c in acases:
+        s = sites[c["sid"]]
+        if c["units"] is None:          # not a string of the type (odd octet count): Spec only
+            c["mk"] = None
+            continue
+        k1 = ("achk", s.kind, s.got_size, A.alpha_s(s.canon), ",".join(map(str, c["units"])) or "-")
+        k2 = ("size", U.parts_s(s.size), c["nchars"])
+        for k in (k1, k2):
+            if k not in _model_cache:
+                _model_cache[k] = None
+                keys.append(k)
+                ql.append("c08achk %s %d %s %s" % (k[1], 1 if k[2] else 0, k[3], k[4]) if k[0] == "achk" else "c08chk 0 o[%s] O%s;" % (k[1], "00" * k[2]))
+        c["mk"] = (k1, k2)
+    if ql:
+        rc, mo, me = run_lines(model, ql, timeout=900)
+        if rc != 0 or len(mo) != len(ql):
+            raise RuntimeError("model driver failed on c08achk: %s %s" % (rc, me))
+        for k, o in zip(keys, mo):
+            _model_cache[k] = o
+    tick("alphabet %s: model evaluated %d queries" % (tag, len(ql)))
+    names = module_names(am)
+    lines = []
+    for c in acases:
+        lines += ["xcode %s der %s der" % (c["tn"], c["der"]), "chkx %s der %s" % (c["tn"], c["der"])]
+    lines += ["chke %s der %s" % (c["tn"], c["der"]) for c in acases]
+    try:
+        out = run_mod(run, am, lines, "C08-alphabet[%s]" % tag, timeout=600)
+    except subprocess.TimeoutExpired:
+        run.violation("oracle:termination", {"what": "driver run did not finish within 600 s", "module": am["text"][:3000]})
+        return
+    tick("alphabet %s: C ran %d cases" % (tag, len(acases)))
+    nrun = 0
+    shown = {"corr": 0, "spec": 0}
+    for i, c in enumerate(acases):
+        s = sites[c["sid"]]
+        o = out[2 * i:2 * i + 2]
+        oe = out[2 * len(acases) + i]
+        line = lines[2 * i + 1]
+        replay = {"module": "(module %s, %d bytes; type text below)" % (am["name"], len(am["text"])), "type_text": c["text"], "asn1c_options": " ".join(opts), "type": c["tn"],
+                  "site": s.id, "site_text": s.text, "alphabet": A.alpha_s(s.canon), "case": c["what"], "der": c["der"][:600], "violated": c["bad"]}
+        if o[0] != "OK " + c["der"]:
+            run.count("C08-alphabet_skipped_transport_not_identity:" + c["label"])
+            continue
+        nrun += 1
+        run.case(tag + " " + line[:300])
+        run.count("alphabet_" + c["label"])
+        parsed = parse_chkx(o[1])
+        if parsed is None:
+            run.violation("oracle:chk", dict(replay, what="unexpected driver output", command_line=line, c=o[1][:600]))
+            continue
+        ret, L, full, _nr, _sw = parsed
+        if not oe.startswith("%s %d EXACT" % (ret, L)) and oe != "CRASH":
+            run.violation("oracle:chk", dict(replay, what="exact-buffer run disagrees with the guarded run", command_line=line, c=[o[1][:300], oe[:300]]))
+        ma, ms = (_model_cache[c["mk"][0]], _model_cache[c["mk"][1]]) if c["mk"] else ("false" if c["bad"] else "true", "OK")
+        if ma not in ("true", "false") or not (ms == "OK" or ms.startswith("FAIL")):
+            run.violation("model:front-end", dict(replay, what="model driver could not evaluate a generated case", model=[ma, ms]), no_input=True)
+            continue
+        m_ok = (ma == "true") and ms == "OK"
+        spec_ok = not c["bad"]
+        if (ret == "0") != m_ok or (ret == "-1" and "constraint failed" not in full):
+            bad = (ret == "0") != spec_ok
+            shown["corr"] += 1
+            if shown["corr"] <= 6:
+                run.violation("correspondence:Rt.Alphabet.alpha_check", dict(replay, what="asn_check_constraints and the model disagree" + (" (and the C contradicts the Spec)" if bad else ""),
+                                                                          command_line=line, c=o[1][:300], model="alphabet loop %s, SIZE %s" % (ma, ms), message=full), no_input=not bad)
+            continue
+        if (ret == "0") != spec_ok:
+            if c["known"] and ret == "0":
+                run.known_finding(c["known"], line)
+            else:
+                shown["spec"] += 1
+                if shown["spec"] <= 6:
+                    run.violation("oracle:check_exact(alphabet)", dict(replay, what="asn_check_constraints returned %s for a value that %s the constraints (the model agrees with the C: model or proof defect)" % (ret, "violates" if c["bad"] else "satisfies"),
+                                                                       command_line=line, c=o[1][:300], message=full), no_input=False)
+        check_messages(run, line, parsed, clamp_need, names, replay)
+    run.count("C08-alphabet_cases", nrun)
+    if acases:
+        c = acases[len(acases) // 3]
+        run.sample({"alphabet_case": c["what"][:200], "der": c["der"][:80], "violated": c["bad"]})
 
 
 def tick(what):
@@ -525,6 +665,7 @@ def main(tier):
         cases = {m["name"]: module_cases(m, rng, tier) for m in [hand] + bmods + gmods}
         scases = string_cases(rng)
         wm, wcases = W.wide_module(rng)
+        am, asites, awhere, acases = A.alpha_module(rng, tier)
         clamp_need = []
         nmods = 0
         flagsets = FLAGSETS_QUICK if tier == "quick" else FLAGSETS_THOROUGH
@@ -536,8 +677,10 @@ def main(tier):
                    "lite": [U.lite_module(m) for m in bmods]}[which]
             sel = [dict(m) for m in sel]
             xs = [dict(xm), dict(wm)] if which in ("all", "main") else []
+            if tag in ALPHA_FLAGSETS:
+                xs.append(dict(am))
             tick("build " + tag)
-            build_modules(sel + xs, tag="c08_" + tag, opts=opts, moddrv_extra=MODDRV_EXTRA)
+            A.build_latin1(build_modules, sel + xs, tag="c08_" + tag, opts=opts, moddrv_extra=MODDRV_EXTRA)
             tick("built " + tag)
             nmods += len(sel) + len(xs)
             for m in sel:
@@ -546,10 +689,16 @@ def main(tier):
             for x in xs:
                 if x["name"] == xm["name"]:
                     oracle_layer(run, x, scases, "C08-strings", opts, clamp_need)
+                elif x["name"] == am["name"]:
+                    alphabet_layer(run, model, x, asites, awhere, acases, tag, opts, clamp_need, share=1 if tag == "cn" else 3)
                 else:
                     oracle_layer(run, x, wcases, "C08-wide", opts, clamp_need)
                 tick("ran %s %s" % (tag, x["name"]))
         check_clamp_model(run, model, clamp_need)
+        kinds = {}
+        for v in run.violations:
+            kinds[v["kind"]] = kinds.get(v["kind"], 0) + 1
+        tick("violations by kind: %s" % kinds)
     except (BuildError, RuntimeError) as e:
         run.violation("build", {"what": str(e)[-2500:]}, no_input=True)
         return run.finish("proof", (nthm, ndis))
